@@ -166,3 +166,36 @@ Definition run_raw (P : list backend) (mx : option mixer) (r : raw_op) : obs :=
   | Raise e => ([], Raise e)
   | Diverge => ([], Diverge)
   end.
+
+(* ------------------------------------------------------------------ backend answers as Python values
+   The routing model decides what it accepts from a backend with its own small tests
+   (entry_is, as_instances, item_ok, class of RVal, ranges).  The functions below render a
+   scripted answer as the Python value the fake backend returns, so that those tests can be
+   compared with what the validation layer computes on that value (Proofs_Answers).
+   key_text gives the text of a URI id (the numbering is injective, any left inverse will do). *)
+Definition cls_ty (c : cls) : pycls := match c with CStr => TStr | CInt => TInt | c => TModel c end.
+
+Definition entry_val (key_text : uri -> str) (e : entry) : pyval :=
+  match e with
+  | EJunk => PJunk
+  | EObj CStr id _ => PStr [id]
+  | EObj CInt id _ => PInt id
+  | EObj c id _ => PObj c id
+  | EUriStr u => PStr (key_text u)
+  end.
+
+Definition mval_val (key_text : uri -> str) (v : mval) : pyval :=
+  match v with MBad => PNone | MList l => PList (map (entry_val key_text) l) end.
+
+Definition resp_val (key_text : uri -> str) (r : resp) : pyval :=
+  match r with
+  | RRaise _ | RNone => PNone
+  | RWrong => PStr [97; 98; 99]
+  | RMap items => PDict (map (fun it => (PStr (key_text (fst it)), mval_val key_text (snd it))) items)
+  | RList l => PList (map (entry_val key_text) l)
+  | RVal CStr id => PStr [id]
+  | RVal CInt id => PInt id
+  | RVal c id => PObj c id
+  | RBool b => PBool b
+  | RInt z => PInt z
+  end.
